@@ -3,6 +3,7 @@ package rules
 import (
 	"fmt"
 	"go/ast"
+	"regexp"
 	"sort"
 	"strings"
 
@@ -233,20 +234,76 @@ func c15(r *core.Run) {
 	// R5 key agreement: every provider / collateral record touched by the two handlers is keyed by the same term
 	terms := map[string][]string{}
 	for _, h := range []*core.Handler{hi, hd} {
-		allInstrs(h.Fn, func(in ssa.Instruction) {
-			call, ok := in.(ssa.CallInstruction)
-			if !ok {
-				return
-			}
-			for _, pre := range []string{stCollateral, stProviders} {
-				for _, kind := range []string{"Get", "Set", "Delete"} {
-					if cal, op := directOpCallee(p, call, kind, pre); cal != nil {
-						t := strings.Join(keyTermsAtCall(p, call, cal, op), "/")
-						terms[t] = append(terms[t], h.Key()+" "+kind+" "+pre+" @"+p.InstrPos(call))
+		var walk func(fn *ssa.Function, tb *core.TermBuilder, depth int)
+		walk = func(fn *ssa.Function, tb *core.TermBuilder, depth int) {
+			// store operations performed by this function itself (an accessor inlined into it)
+			if !isAccessorFn(p, fn) {
+				for _, o := range p.StoreOps(fn) {
+					name := o.Module + "/" + o.Prefix
+					if (name != stCollateral && name != stProviders) || (o.Kind != "Get" && o.Kind != "Set" && o.Kind != "Delete") {
+						continue
 					}
+					var ts []string
+					for _, comp := range p.KeyComponents(o.Key, o.Instr) {
+						if _, isC := comp.Val.(*ssa.Const); isC {
+							continue
+						}
+						ts = append(ts, stripKeySeparators(tb.Term(comp.Val)))
+					}
+					t := strings.Join(ts, "/")
+					terms[t] = append(terms[t], h.Key()+" "+o.Kind+" "+name+" @"+p.InstrPos(o.Instr))
 				}
 			}
-		})
+			allInstrs(fn, func(in ssa.Instruction) {
+				call, ok := in.(ssa.CallInstruction)
+				if !ok {
+					return
+				}
+				handled := false
+				for _, pre := range []string{stCollateral, stProviders} {
+					for _, kind := range []string{"Get", "Set", "Delete"} {
+						if cal, op := directOpCallee(p, call, kind, pre); cal != nil && isAccessorFn(p, cal) || cal != nil && p.StoreGetter(cal) != nil {
+							t := strings.Join(keyTermsAtCallTB(p, tb, call, cal, op), "/")
+							terms[t] = append(terms[t], h.Key()+" "+kind+" "+pre+" @"+p.InstrPos(call))
+							handled = true
+						}
+					}
+				}
+				if handled || depth >= 2 {
+					return
+				}
+				// a helper of the handler: its accesses count, expressed in the handler's values
+				for _, cal := range p.Callees(call) {
+					if core.ModuleOf(cal) != "storage" || cal.Blocks == nil {
+						continue
+					}
+					touches := false
+					for _, o := range p.Summary(cal).Store {
+						if n := o.Module + "/" + o.Prefix; n == stCollateral || n == stProviders {
+							touches = true
+						}
+					}
+					if !touches {
+						continue
+					}
+					sub := core.NewTermBuilder(p)
+					sub.Bind = map[*ssa.Parameter]core.BoundVal{}
+					c := call.Common()
+					var actuals []ssa.Value
+					if c.IsInvoke() {
+						actuals = append(actuals, c.Value)
+					}
+					actuals = append(actuals, c.Args...)
+					for i, prm := range cal.Params {
+						if i < len(actuals) {
+							sub.Bind[prm] = core.BoundVal{Val: actuals[i], TB: tb}
+						}
+					}
+					walk(cal, sub, depth+1)
+				}
+			})
+		}
+		walk(h.Fn, core.NewTermBuilder(p), 0)
 	}
 	var ks []string
 	for k := range terms {
@@ -257,7 +314,7 @@ func c15(r *core.Run) {
 	for _, v := range terms {
 		nSites += len(v)
 	}
-	if len(ks) == 1 && nSites >= 7 {
+	if len(ks) == 1 && nSites >= 5 {
 		r.Ok("C15/R5", "provider-and-collateral-keys-agree", "", fmt.Sprintf("%d accesses all keyed by %s", nSites, ks[0]))
 	} else {
 		var where []string
@@ -269,4 +326,18 @@ func c15(r *core.Run) {
 	// R4
 	errorsPropagate(r, "C15/R4", hi)
 	errorsPropagate(r, "C15/R4", hd)
+}
+
+var keySepRe = regexp.MustCompile(`^concat\((.*),(alloc|"[^"]*")\)$`)
+
+// stripKeySeparators: concat(X, <separator literal>) -> X (a key written out by hand as address + "/").
+func stripKeySeparators(t string) string {
+	for i := 0; i < 4; i++ {
+		m := keySepRe.FindStringSubmatch(t)
+		if m == nil {
+			return t
+		}
+		t = m[1]
+	}
+	return t
 }
